@@ -34,7 +34,7 @@ REACH = [
 ASSUMPTIONS = ["numpy complex128 arithmetic is the definition of 'native complex arithmetic'",
                "tolerance 50*eps(lowest operand precision)*sum|terms|"]
 MIN_PER_WORKER = 40
-VCLASSES = ["random", "zero", "pm1", "tiny", "huge", "real", "imag", "mixed_scale"]
+VCLASSES = ["random", "zero", "pm1", "tiny", "huge", "real", "imag", "mixed_scale", "split_scale"]
 
 SHAPES = {
     "scalar_mult": [((), ()), ((3,), ()), ((), (3,)), ((2, 3), ()), ((3,), (3,)), ((2, 3), (2, 3)), ((2, 3), (3,)),
@@ -106,6 +106,10 @@ def values(rng, shape, vc):
         z = rng.normal(size=shape) + 0j
     elif vc == "imag":
         z = 1j * rng.normal(size=shape)
+    elif vc == "split_scale":
+        # real and imaginary parts of very different magnitude (a nearly real or nearly imaginary number): each component
+        # of a product is accurate relative to ITS OWN terms, not to the largest component around
+        z = rng.normal(size=shape) * 10.0 ** rng.integers(-8, 9, size=shape) + 1j * rng.normal(size=shape) * 10.0 ** rng.integers(-8, 9, size=shape)
     elif vc == "mixed_scale":
         z = (rng.normal(size=shape) + 1j * rng.normal(size=shape)) * 10.0 ** rng.integers(-8, 9, size=shape)
     else:
